@@ -4,6 +4,7 @@ import (
 	"fmt"
 	"go/token"
 	"go/types"
+	"regexp"
 	"sort"
 	"strings"
 
@@ -34,17 +35,21 @@ type Obligation struct {
 const maxInlineDepth = 8
 
 type discoverCtx struct {
-	head       int
-	depth      int
-	start      *HeapView
-	keys       map[string]bool
-	all        bool
-	events     map[string]bool
-	loop       *loopInfo
-	timeAdv    bool
-	startNow   Term
-	startTrace int
-	startEpoch int
+	head         int
+	depth        int
+	start        *HeapView
+	keys         map[string]bool
+	all          bool
+	events       map[string]bool
+	loop         *loopInfo
+	timeAdv      bool
+	startNow     Term
+	startTrace   int
+	startEpoch   int
+	startSeq     int
+	startCounter int
+	objs         map[string][]string // key -> loop-invariant objects written
+	unknown      map[string]bool     // key -> written at an object that is neither loop-invariant nor fresh
 }
 
 type topCtx struct {
@@ -235,6 +240,11 @@ func (e *Exec) execInstr(st *State, fr *Frame, in ssa.Instruction) ([]*State, bo
 			if idn, ok := x.Expr.(interface{ End() token.Pos }); ok {
 				_ = idn
 			}
+		}
+		if c, isC := x.X.(*ssa.Const); isC && c.Value == nil && !x.IsAddr {
+			// declaration-site reference to the zero value: not the variable's value
+			fr.pc++
+			return nil, true
 		}
 		if obj := x.Object(); obj != nil {
 			if x.IsAddr {
@@ -589,6 +599,14 @@ func (e *Exec) initElems(st *State, el types.Type, base Term) {
 
 func (e *Exec) storeWithHooks(st *State, p *Place, v Value, pos token.Pos) {
 	e.lockCheckAccess(st, p, true, pos)
+	if p.Kind == PField {
+		if pre, _ := placePrefix(p); immutableGhost(pre) && !(st.fresh[p.Base.S] && !st.published[p.Base.S]) && e.disc == nil {
+			if !(e.top != nil && e.top.contract != nil && e.top.contract.Attrs["constructs"] != "" && e.top.params[e.top.contract.Attrs["constructs"]].L != nil && e.top.params[e.top.contract.Attrs["constructs"]].L[0].S == p.Base.S) {
+				what := e.eng.srcText(pos)
+				e.oblige(st, "immutable", pre+":"+what, False, pos, nil, "store to "+pre+", which is declared immutable after construction")
+			}
+		}
+	}
 	if p.Kind == PField || p.Kind == PObj {
 		if pre, _ := placePrefix(p); e.eng.specs.StableNonNil[pre] && len(v.L) == 1 {
 			// history constraint: this field never goes back to nil on a published object
@@ -617,7 +635,11 @@ func (e *Exec) storeWithHooks(st *State, p *Place, v Value, pos token.Pos) {
 		if err != nil {
 			panic(err)
 		}
-		e.storeGhost(st, h.Ghost, nv.L[0].Sort, p.Base, nv.L[0])
+		at := p.Base
+		if h.At == "val" {
+			at = v.L[0]
+		}
+		e.storeGhost(st, h.Ghost, nv.L[0].Sort, at, nv.L[0])
 	}
 }
 
@@ -695,6 +717,8 @@ type loopMod struct {
 	all     bool
 	events  []string
 	timeAdv bool
+	objs    map[string][]string
+	unknown map[string]bool
 }
 
 func (e *Exec) iterOfLoop(fr *Frame, li *loopInfo) *ssa.Range {
@@ -724,10 +748,25 @@ func (e *Exec) havocLoop(st *State, fr *Frame, li *loopInfo, phis []*ssa.Phi, mo
 	if mod.all {
 		e.havocAll(st)
 	} else {
+		entryTop := st.allocTop
 		for _, k := range mod.keys {
 			s := e.keySort[k]
 			old, had := st.heap[k]
+			if !had {
+				// first touched inside the loop: its pre-loop version is the epoch's initial array
+				old = e.declare(h0Name(k, st.epoch), s)
+				had = true
+			}
 			st.heap[k] = e.freshConst("Hl."+k, s)
+			if had && mod.unknown != nil && !mod.unknown[k] && strings.HasPrefix(string(s), "(Array Int ") {
+				// the loop writes this array only at loop-invariant objects and at
+				// objects it allocates itself: everything else keeps its value
+				conds := []string{"(<= r " + entryTop.S + ")"}
+				for _, o := range mod.objs[k] {
+					conds = append(conds, "(not (= r "+o+"))")
+				}
+				st.assert(Term{fmt.Sprintf("(forall ((r Int)) (! (=> (and %s) (= (select %s r) (select %s r))) :pattern ((select %s r))))", strings.Join(conds, " "), st.heap[k].S, old.S, st.heap[k].S), SBool})
+			}
 			st.seq++
 			st.roots[k] = rootInfo{st.heap[k], st.seq}
 			e.rootWF(st, k, st.heap[k], strings.HasPrefix(k, "elem:") || strings.HasPrefix(k, "map"))
@@ -766,7 +805,8 @@ func (e *Exec) discoverLoop(st *State, li *loopInfo, phis []*ssa.Phi) *loopMod {
 		c := st.clone()
 		fr := c.top()
 		e.havocLoop(c, fr, li, phis, &loopMod{keys: sortedKeys(keys), all: mod.all, timeAdv: mod.timeAdv})
-		d := &discoverCtx{head: li.head.Index, depth: len(c.frames), start: c.heapSnapshot(), keys: map[string]bool{}, events: map[string]bool{}, loop: li, startNow: c.now}
+		d := &discoverCtx{head: li.head.Index, depth: len(c.frames), start: c.heapSnapshot(), keys: map[string]bool{}, events: map[string]bool{}, loop: li, startNow: c.now,
+			startSeq: c.seq, startCounter: e.counter, objs: map[string][]string{}, unknown: map[string]bool{}}
 		e.disc = d
 		d.startTrace = len(c.trace)
 		d.startEpoch = c.epoch
@@ -793,6 +833,7 @@ func (e *Exec) discoverLoop(st *State, li *loopInfo, phis []*ssa.Phi) *loopMod {
 			mod.timeAdv = true
 			grew = true
 		}
+		mod.objs, mod.unknown = d.objs, d.unknown
 		if !grew {
 			break
 		}
@@ -867,6 +908,11 @@ func (e *Exec) recordDiscovery(st *State) {
 				continue
 			}
 			d.keys[k] = true
+			start := h0Name(k, d.start.epoch)
+			if ok {
+				start = old.S
+			}
+			e.classifyWrites(st, d, k, v.S, start)
 		}
 	}
 	for _, ev := range st.trace[d.startTrace:] {
@@ -980,6 +1026,14 @@ func (e *Exec) specEnvFor(st *State, fr *Frame) *SpecEnv {
 			env.vars[name] = e.val(fr, v)
 		}
 	}
+	for name, v := range e.uniqueNames(fr.fn) {
+		if _, have := env.vars[name]; have {
+			continue
+		}
+		if val, ok := fr.env[v]; ok {
+			env.vars[name] = val
+		}
+	}
 	for _, p := range fr.fn.Params {
 		if val, ok := fr.env[p]; ok {
 			env.vars[p.Name()] = val
@@ -989,6 +1043,7 @@ func (e *Exec) specEnvFor(st *State, fr *Frame) *SpecEnv {
 		// captured variables: by-reference cells
 		if i < len(fr.bind) && fr.bind[i].P != nil {
 			env.vars[fv.Name()] = e.loadPlace(st, fr.bind[i].P, nil)
+			env.vars[fv.Name()+"$ptr"] = fr.bind[i]
 		}
 	}
 	if e.top != nil && len(st.frames) >= 1 && st.frames[0] == fr {
@@ -1070,4 +1125,101 @@ func (e *Exec) unwind(st *State, pos token.Pos) ([]*State, bool) {
 		}
 		st.frames = st.frames[:len(st.frames)-1]
 	}
+}
+
+var bangNum = regexp.MustCompile(`![0-9]+`)
+
+// classifyWrites walks the chain of stores from version cur back to version
+// start and classifies the objects written.
+func (e *Exec) classifyWrites(st *State, d *discoverCtx, key, cur, start string) {
+	for steps := 0; steps < 10000; steps++ {
+		if cur == start {
+			return
+		}
+		body := cur
+		if b, ok := e.defBody[cur]; ok {
+			body = b
+		}
+		arr, idx, ok := parseStore(body)
+		if !ok {
+			d.unknown[key] = true
+			return
+		}
+		if seq, fresh := st.freshSeq[idx]; fresh && seq > d.startSeq {
+			// allocated inside the loop
+		} else {
+			inv := true
+			for _, m := range bangNum.FindAllString(idx, -1) {
+				n := 0
+				fmt.Sscanf(m[1:], "%d", &n)
+				if n > d.startCounter {
+					inv = false
+				}
+			}
+			if !inv {
+				d.unknown[key] = true
+				return
+			}
+			dup := false
+			for _, o := range d.objs[key] {
+				if o == idx {
+					dup = true
+				}
+			}
+			if !dup {
+				d.objs[key] = append(d.objs[key], idx)
+			}
+		}
+		cur = arr
+	}
+	d.unknown[key] = true
+}
+
+// parseStore splits "(store A I V)" into A and I.
+func parseStore(s string) (arr, idx string, ok bool) {
+	if !strings.HasPrefix(s, "(store ") {
+		return "", "", false
+	}
+	i := 7
+	j := sortEnd(s, i)
+	arr = s[i:j]
+	k := j + 1
+	l := sortEnd(s, k)
+	idx = s[k:l]
+	return arr, idx, true
+}
+
+// uniqueNames: source-level variables of fn that denote exactly one SSA value
+// throughout the function (single assignment), by name.
+func (e *Exec) uniqueNames(fn *ssa.Function) map[string]ssa.Value {
+	if m, ok := e.nameCache[fn]; ok {
+		return m
+	}
+	seen := map[string]map[ssa.Value]bool{}
+	for _, b := range fn.Blocks {
+		for _, in := range b.Instrs {
+			d, ok := in.(*ssa.DebugRef)
+			if !ok || d.IsAddr || d.Object() == nil {
+				continue
+			}
+			if c, isC := d.X.(*ssa.Const); isC && c.Value == nil {
+				continue
+			}
+			n := d.Object().Name()
+			if seen[n] == nil {
+				seen[n] = map[ssa.Value]bool{}
+			}
+			seen[n][d.X] = true
+		}
+	}
+	m := map[string]ssa.Value{}
+	for n, vs := range seen {
+		if len(vs) == 1 {
+			for v := range vs {
+				m[n] = v
+			}
+		}
+	}
+	e.nameCache[fn] = m
+	return m
 }
